@@ -128,14 +128,21 @@ func vfC01Prologues(pro string) (pi, pr []byte) {
 	return nil, nil
 }
 
-// vfC01Secure builds the security transport one endpoint uses and the peer ID it names.
+func vfC01NewTransport(k vfC01Key) (*Transport, error) {
+	return New(ID, k.priv, []tptu.StreamMuxer{{ID: "/yamux/1.0.0"}})
+}
+
+// vfC01Secure builds the security transport one endpoint uses (on top of the Transport object tpt, created
+// when nil) and the peer ID it names.
 // setting: "match" (the real counterpart), "diff" (another peer: the attacker's ID), "empty" (nobody),
 // "off" (another peer named, DisablePeerIDCheck given).  The plain Transport is used whenever no session
 // option is needed and session is false; otherwise Transport.WithSessionOptions.
-func vfC01Secure(k vfC01Key, setting string, prologue []byte, counterpart, attacker peer.ID, session bool) (sec.SecureTransport, peer.ID, error) {
-	tpt, err := New(ID, k.priv, []tptu.StreamMuxer{{ID: "/yamux/1.0.0"}})
-	if err != nil {
-		return nil, "", err
+func vfC01Secure(tpt *Transport, k vfC01Key, setting string, prologue []byte, counterpart, attacker peer.ID, session bool) (sec.SecureTransport, peer.ID, error) {
+	if tpt == nil {
+		var err error
+		if tpt, err = vfC01NewTransport(k); err != nil {
+			return nil, "", err
+		}
 	}
 	var p peer.ID
 	switch setting {
@@ -314,15 +321,31 @@ type vfC01Sess struct {
 	I, R *vfC01Side
 }
 
-// vfC01NewSess starts an initiator and a responder configured per cfg.  suffix "" names them I/R,
-// "2" names them I2/R2 (the other honest session, which always names its real counterpart).
-func vfC01NewSess(ctx context.Context, cfg vfC01Cfg, ids vfC01Ids, suffix string, session bool) (*vfC01Sess, error) {
-	pi, pr := vfC01Prologues(cfg.Pro)
-	ti, ip, err := vfC01Secure(ids.A, cfg.Ei, pi, ids.B.id, ids.M.id, session)
+// vfC01Tpts: the Transport objects of the two hosts, kept alive across the sessions of one history
+type vfC01Tpts struct{ a, b *Transport }
+
+func vfC01NewTpts(ids vfC01Ids) (*vfC01Tpts, error) {
+	a, err := vfC01NewTransport(ids.A)
 	if err != nil {
 		return nil, err
 	}
-	tr, rp, err := vfC01Secure(ids.B, cfg.Er, pr, ids.A.id, ids.M.id, session)
+	b, err := vfC01NewTransport(ids.B)
+	return &vfC01Tpts{a, b}, err
+}
+
+// vfC01NewSess starts an initiator and a responder configured per cfg.  suffix "" names them I/R,
+// "2" names them I2/R2 (the other honest session, which always names its real counterpart).  tp: the
+// Transport objects to build on (nil: fresh ones).
+func vfC01NewSess(ctx context.Context, cfg vfC01Cfg, ids vfC01Ids, suffix string, session bool, tp *vfC01Tpts) (*vfC01Sess, error) {
+	if tp == nil {
+		tp = &vfC01Tpts{}
+	}
+	pi, pr := vfC01Prologues(cfg.Pro)
+	ti, ip, err := vfC01Secure(tp.a, ids.A, cfg.Ei, pi, ids.B.id, ids.M.id, session)
+	if err != nil {
+		return nil, err
+	}
+	tr, rp, err := vfC01Secure(tp.b, ids.B, cfg.Er, pr, ids.A.id, ids.M.id, session)
 	if err != nil {
 		return nil, err
 	}
@@ -331,6 +354,7 @@ func vfC01NewSess(ctx context.Context, cfg vfC01Cfg, ids vfC01Ids, suffix string
 		R: vfC01StartSide(ctx, "R"+suffix, "R", ids.B, tr, rp, cfg.Er),
 	}, nil
 }
+
 func (s *vfC01Sess) finish() { s.I.finish(); s.R.finish() }
 
 // ---------------------------------------------------------------------------------------------
